@@ -96,15 +96,39 @@ class YAMLPath:
         if not isinstance(other, (YAMLPath, str)):
             return False
 
-        equiv_this = YAMLPath(self)
-        equiv_this.separator = PathSeparators.FSLASH
-        cmp_this = str(equiv_this)
+        # Compare the parsed -- escaped -- segments lest "a\\.b" differ from
+        # "/a.b" merely for how each notation spells the same key.
+        this_path = YAMLPath(self)
+        that_path = YAMLPath(other)
+        this_segments = this_path.escaped
+        that_segments = that_path.escaped
+        if len(this_segments) != len(that_segments):
+            return False
 
-        equiv_that = YAMLPath(other)
-        equiv_that.separator = PathSeparators.FSLASH
-        cmp_that = str(equiv_that)
+        for seg_idx, this_segment in enumerate(this_segments):
+            that_segment = that_segments[seg_idx]
+            this_attrs = this_path.unescaped[seg_idx][1]
+            that_attrs = that_path.unescaped[seg_idx][1]
+            if (isinstance(this_attrs, CollectorTerms)
+                and isinstance(that_attrs, CollectorTerms)
+            ):
+                # Collected sub-paths are YAML Paths in their own right
+                if (this_segment[0] != that_segment[0]
+                    or this_attrs.operation != that_attrs.operation
+                    or YAMLPath(this_attrs.expression)
+                        != YAMLPath(that_attrs.expression)
+                ):
+                    return False
+                continue
 
-        return cmp_this == cmp_that
+            cmp_this = YAMLPath._stringify_yamlpath_segments(
+                deque([this_segment]), PathSeparators.FSLASH)
+            cmp_that = YAMLPath._stringify_yamlpath_segments(
+                deque([that_segment]), PathSeparators.FSLASH)
+            if this_segment[0] != that_segment[0] or cmp_this != cmp_that:
+                return False
+
+        return True
 
     def __ne__(self, other: object) -> bool:
         """Indicate non-equivalence of two YAMLPaths."""
